@@ -1331,6 +1331,57 @@ def r_op_params_used(prog: Program, col: Collector, refs: Refs, cat: Catalogue, 
         else:
             col.violation(construct, f"the rule is selected for {', '.join(o.var for o in withp[:3])}{'...' if len(withp) > 3 else ''} (parameters {withp[0].params}) but never mentions its op argument `{opn}`: "
                           "the parameters of the op instance cannot influence the result", f.loc())
+        # applying the DEFAULT instance of the very op the rule was selected for (ops.getitem inside a rule for GetitemOp) computes the
+        # default-parametrised op: right only where the rule has established that the parameters are the defaults
+        default_vars = {o.fq: o for o in withp}
+        plocals = {}
+        for st in walk_no_nested(f.node):
+            if isinstance(st, ast.Assign) and len(st.targets) == 1 and isinstance(st.targets[0], ast.Name) and any(
+                    isinstance(x, ast.Name) and x.id == opn for x in ast.walk(st.value)):
+                plocals[st.targets[0].id] = st.value
+        for c in walk_no_nested(f.node):
+            if not (isinstance(c, ast.Call) and isinstance(c.func, (ast.Name, ast.Attribute))):
+                continue
+            tgt = refs.resolve(c.func)
+            o = cat.resolve_op(f.module, c.func)
+            if o is None or o.fq not in default_vars or not o.params:
+                continue
+            arity = len(o.all_params) - len(o.params)
+            if len(c.args) + len(c.keywords) > arity or any(isinstance(a_, ast.Starred) for a_ in c.args):
+                continue  # the parameters are passed along explicitly
+            # facts on the way: an equality between a parameter-derived value and a constant that HOLDS
+            exits = (ast.Return, ast.Raise, ast.Continue, ast.Break)
+            established = False
+            for a in walk_no_nested(f.node):
+                if not isinstance(a, ast.If):
+                    continue
+                t, pol_needed = a.test, None
+                inside = lambda blk: any(c is y for st_ in blk for y in ast.walk(st_))
+                if inside(a.body):
+                    pol_needed = True
+                elif inside(a.orelse):
+                    pol_needed = False
+                else:
+                    par = f.module.parent.get(a)
+                    for fld in ("body", "orelse", "finalbody"):
+                        blk = getattr(par, fld, None)
+                        if isinstance(blk, list) and any(x is a for x in blk):
+                            k = [j for j, x in enumerate(blk) if x is a][0]
+                            if inside(blk[k + 1:]) and a.body and isinstance(a.body[-1], exits):
+                                pol_needed = False
+                if pol_needed is None:
+                    continue
+                neg = False
+                while isinstance(t, ast.UnaryOp) and isinstance(t.op, ast.Not):
+                    t, neg = t.operand, not neg
+                if isinstance(t, ast.Compare) and len(t.ops) == 1 and isinstance(t.ops[0], (ast.Eq, ast.NotEq, ast.Is, ast.IsNot)):
+                    reads_param = any(isinstance(x, ast.Name) and (x.id in plocals or x.id == opn) for x in ast.walk(t))
+                    holds_eq = (isinstance(t.ops[0], (ast.Eq, ast.Is)) != neg) == pol_needed
+                    if reads_param and holds_eq:
+                        established = True
+            col.check(established, f"{f.fq}::{norm(c)[:50]}", "the default instance is applied where the parameters were tested to be the defaults",
+                      f"`{norm(c.func)}` is the default instance of the op this rule is selected for (parameters {o.params}); it is applied on a path that has not established that `{opn}` "
+                      f"carries the default parameters, so e.g. an offset / axis of the op instance is dropped (x[:, :, k] is evaluated as x[k] of the inner term)", f.loc(c))
 
 
 # ---------------------------------------------------------------------- variables leave the outer reduction only with exact counts
